@@ -130,6 +130,8 @@ def report(a, prop, tasks, results, bres, seed, t0):
     by_backend = {}
     goals = set()
     n_nontrivial = 0
+    for relpath, q, what in loader.DRIFT:
+        oor.append((q, f"spec drift in {relpath}: {what} (the function changed under its contract; other clauses still checked)"))
     for t, r in zip(tasks, results):
         if r.get("error"):
             (crashes if not r.get("timeout") else undecided).append((r["task"], r["error"]))
@@ -172,6 +174,12 @@ def report(a, prop, tasks, results, bres, seed, t0):
                     n_ob += 1
                     refuted.append((r["task"], o, t))
             else:
+                # an obligation that an OPEN known finding names as false on this tree: a path on which the solver
+                # finds no model for it (unknown) adds nothing new - same finding, not a separate undecided result
+                k = next((k for k in open_known if k["task"] == r["task"] and k["obligation"] == o["name"]), None)
+                if k is not None:
+                    matched.append((k, o, t))
+                    continue
                 n_ob += 1
                 undecided.append((r["task"], f"{o['name']}: {o['verdict']}"))
     # ---- bounded stand-ins
